@@ -1102,7 +1102,8 @@ def cases_for(prop, tier, seed):
                 negrep.append(case({"config": cfgx, "objects": [{"kind": "block", "name": "Bank", "address_offset": "20",
                                                                  "repeat": {"count": "2", "stride": "50"}, "objects": [reg, other]}]},
                                    pick_syntax(g, (4, 4, 1, 1)), "mixed"))
-        return CORPUS.get(prop, []) + prof_mixed(g, 340 * k, depth=3, neg=True, field_kw={"conv_p": 0.05}, block_ref_p=0.15, repeat_p=0.5) + prof_pow2(g, 60 * k) + pairs + prof_addrtype(g, 80 * k) + negrep
+        # (the directed devices come first: the compiled probe takes its negative-stride devices in generation order)
+        return CORPUS.get(prop, []) + negrep + prof_mixed(g, 340 * k, depth=3, neg=True, field_kw={"conv_p": 0.05}, block_ref_p=0.15, repeat_p=0.5) + prof_pow2(g, 60 * k) + pairs + prof_addrtype(g, 80 * k)
     return _cases_for_base2(prop, tier, seed)
 
 
